@@ -10,7 +10,25 @@ pub enum Sx {
 /// Lists whose first atom is SET are compared as multisets.
 pub const SET: u64 = 777_777;
 
+/// `(666666 b)`: a judgement of the model on the implementation's observation.
+pub const JUDGE: u64 = 666_666;
+
 impl Sx {
+  pub fn judge(v: bool) -> Sx {
+    Sx::L(vec![Sx::A(JUDGE), Sx::b(v)])
+  }
+  /// copy with every judgement flag forced to 1
+  pub fn mask_judgements(&self) -> Sx {
+    match self {
+      Sx::A(n) => Sx::A(*n),
+      Sx::L(l) => {
+        if l.len() == 2 && l[0] == Sx::A(JUDGE) {
+          return Sx::L(vec![Sx::A(JUDGE), Sx::A(1)]);
+        }
+        Sx::L(l.iter().map(|x| x.mask_judgements()).collect())
+      }
+    }
+  }
   pub fn b(v: bool) -> Sx {
     Sx::A(if v { 1 } else { 0 })
   }
